@@ -437,10 +437,14 @@ Proof.
     subst st'. clear S.
     pose proof (inv_drop st d H) as H1.
     apply (inv_dstep (mkSt (sock st) (lock st) (ds st) (drop d (ss st))) d x (mkD DDead false (d_old x)) _ _ H1);
-      cbn [ds ss sock lock]; auto.
+      cbn [ds ss sock lock].
+    + exact Nd.
+    + exact A.
     + cbn. eapply i_old; eassumption.
+    + reflexivity.
     + right. intros s C. unfold drop in C. apply nth_map_inv in C as (y & Ny & E). symmetry in E.
       apply drop1_conn in E as [_ NE]. congruence.
+    + left. reflexivity.
     + intros e E. exfalso. destruct (lock st) as [e'|] eqn:L; cbn in E.
       * destruct (lock_is st d x e' H Nd A L) as [-> _]. rewrite Nat.eqb_refl in E. discriminate.
       * discriminate.
